@@ -94,6 +94,22 @@ pub fn staged_families(thorough: bool) -> Vec<Family> {
         3,
         &[],
     ));
+    {
+        // de-duplication meets fusion meets private inputs: two products over (aliasable) inputs,
+        // one sum, one connect between inputs and one connect that may pin a private input to a
+        // computed value
+        let mut f = staged(
+            "products-2-sum-priv-conn2",
+            vec![stage(&[VK::Mul], 2, &[0], true, false), stage(&[VK::Add], 1, &[0, 1], false, true)],
+            &[AK::Connect],
+            2,
+            3,
+            &[2],
+        );
+        f.max_priv = 1;
+        f.assert_split = Some((1, 1));
+        v.push(f);
+    }
     if thorough {
         v.push(staged(
             "products-2-sum-then-wide-2",
